@@ -114,7 +114,7 @@ def _pos_deriv(node, inp):
     if node[0] == 't':
         return ('tok', inp.value(node[4], node[5]), node[4])
     _, alt, children, i, j = node
-    return (alt.alias or alt.rule.name,) + tuple(_pos_deriv(c, inp) for c in children if c[0] != 'none')
+    return (alt.alias or alt.rule.label,) + tuple(_pos_deriv(c, inp) for c in children if c[0] != 'none')
 
 
 def _body(rec, xs):
